@@ -32,10 +32,10 @@ pub struct HistPlan {
 
 pub fn plan(rng: &mut Rng, profile: Profile, small: bool) -> HistPlan {
     let elem = match profile {
-        Profile::Work => *rng.pick(&[ElemKind::U64, ElemKind::TrInline]),
+        Profile::Work => *rng.pick(&[ElemKind::U64, ElemKind::TrInline, ElemKind::Big]),
         Profile::Drops | Profile::Clone => *rng.pick(&[ElemKind::TrInline, ElemKind::TrHeap, ElemKind::TrHeap]),
         Profile::Ub => *rng.pick(&[ElemKind::TrHeap, ElemKind::TrHeap, ElemKind::TrInline, ElemKind::U64]),
-        _ => *rng.pick(&[ElemKind::U64, ElemKind::TrInline, ElemKind::TrInline, ElemKind::TrHeap, ElemKind::TrHeap]),
+        _ => *rng.pick(&[ElemKind::U64, ElemKind::TrInline, ElemKind::TrInline, ElemKind::TrHeap, ElemKind::TrHeap, ElemKind::Big]),
     };
     let mode = match rng.below(100) {
         0..=39 => HMode::Good,
